@@ -254,7 +254,8 @@ func siteValue(sc siteCase, dir string) string {
 		return ""
 	}
 	switch sc.form {
-	case "n":
+	case "n", "nsother", "nsown":
+		// nsother / nsown (Gateway only): a bare name, the namespace goes into certificateRefs[].namespace
 		return k
 	case "own":
 		return "a/" + k
@@ -268,6 +269,9 @@ func siteValue(sc siteCase, dir string) string {
 			return "file://" + filepath.Join(dir, "cacrt", "ca_b_ca.pem")
 		}
 		return "file://" + filepath.Join(dir, "crt", "b_"+k+".pem")
+	case "secn":
+		// protocol with a bare name: resolves in the declaring namespace
+		return "secret://" + k
 	case "secother":
 		return "secret://b/" + k
 	case "secown":
@@ -300,7 +304,12 @@ func ingress(ns, name, host, svc string, ann map[string]string, tlsSecret *strin
 	return ing
 }
 
-func gatewayObjs(certName string) []client.Object {
+func gatewayObjs(certName, certNamespace string) []client.Object {
+	var certNS *gatewayv1.Namespace
+	if certNamespace != "" {
+		n := gatewayv1.Namespace(certNamespace)
+		certNS = &n
+	}
 	port := gatewayv1.PortNumber(8080)
 	host := gatewayv1.Hostname("a.local")
 	mode := gatewayv1.TLSModeTerminate
@@ -313,7 +322,7 @@ func gatewayObjs(certName string) []client.Object {
 				Name: "https", Port: 443, Protocol: gatewayv1.HTTPSProtocolType, Hostname: &host,
 				AllowedRoutes: &gatewayv1.AllowedRoutes{Namespaces: &gatewayv1.RouteNamespaces{From: &same}},
 				TLS: &gatewayv1.GatewayTLSConfig{Mode: &mode,
-					CertificateRefs: []gatewayv1.SecretObjectReference{{Name: gatewayv1.ObjectName(certName)}}},
+					CertificateRefs: []gatewayv1.SecretObjectReference{{Name: gatewayv1.ObjectName(certName), Namespace: certNS}}},
 			}}}},
 		&gatewayv1.HTTPRoute{ObjectMeta: metav1.ObjectMeta{Namespace: "a", Name: "rt", Generation: 1},
 			Spec: gatewayv1.HTTPRouteSpec{
@@ -389,6 +398,13 @@ func runSite(sc siteCase, withForeign bool) (res siteResult) {
 		pfx + "secure-crt-secret":       "crt",
 		pfx + "secure-verify-ca-secret": "ca",
 	}
+	if sc.form == "secn" {
+		// namespace b follows the same convention for its own objects
+		bAnn[pfx+"auth-secret"] = "secret://pw"
+		bAnn[pfx+"auth-tls-secret"] = "secret://ca"
+		bAnn[pfx+"secure-crt-secret"] = "secret://crt"
+		bAnn[pfx+"secure-verify-ca-secret"] = "secret://ca"
+	}
 	bTLS := &crtName
 	if sc.site == "gwcert" && sc.form != "fileb" {
 		// a Gateway change asks for a full sync, which converts b's ingress again in the same
@@ -421,7 +437,7 @@ func runSite(sc siteCase, withForeign bool) (res siteResult) {
 	var aObjs []client.Object
 	if sc.site == "gwcert" {
 		// a Gateway in namespace a whose HTTPS listener names the certificate, and its route
-		aObjs = gatewayObjs(siteValue(sc, env.Dir))
+		aObjs = gatewayObjs(siteValue(sc, env.Dir), map[string]string{"nsother": "b", "nsown": "a"}[sc.form])
 	} else {
 		aObjs = []client.Object{aIng}
 	}
@@ -653,13 +669,17 @@ func siteSources(site string) []string {
 }
 
 func siteForms(site string) []string {
+	if site == "gwcert" {
+		// certificateRefs[].namespace: the attribute names the namespace, the name stays bare
+		return []string{"n", "own", "other", "file", "fileb", "secother", "secown", "secn", "nsother", "nsown"}
+	}
 	if siteKind(site) == "svc" {
 		return []string{"n", "own", "other"}
 	}
 	if siteKind(site) == "pw" {
-		return []string{"n", "own", "other", "file", "secother", "secown"}
+		return []string{"n", "own", "other", "file", "secother", "secown", "secn"}
 	}
-	return []string{"n", "own", "other", "file", "fileb", "secother", "secown"}
+	return []string{"n", "own", "other", "file", "fileb", "secother", "secown", "secn"}
 }
 
 func allSettings() []string {
@@ -682,11 +702,16 @@ func corpus() {
 	emitSite(siteCase{"authurlfe", "ing", "other", "00000", "1"})
 	// auth-secret: an existing userlist of another namespace is reused without asking the cache
 	emitSite(siteCase{"authsecret", "ing", "other", "00000", "1"})
+	// secret://<bare name> in two namespaces: the userlist name must not collapse to one
+	emitSite(siteCase{"authsecret", "ing", "secn", "00000", "1"})
+	emitSite(siteCase{"authsecret", "svc", "secn", "00000", "1"})
 	// file:// in spec.tls[].secretName
 	emitSite(siteCase{"tls", "ing", "file", "00000", "0"})
 	emitSite(siteCase{"tlstcp", "ing", "file", "00000", "0"})
 	emitSite(siteCase{"gwcert", "ing", "file", "00000", "0"})
 	emitSite(siteCase{"gwcert", "ing", "other", "00000", "0"})
+	emitSite(siteCase{"gwcert", "ing", "nsother", "00000", "0"})
+	emitSite(siteCase{"gwcert", "ing", "nsother", "00000", "1"})
 	// file:// pointing at the controller's own copy of another namespace's CA bundle
 	emitSite(siteCase{"authtls", "ing", "fileb", "00000", "1"})
 	// the Gateway converter runs before buildGlobalDynamic: allow -> deny is not seen by certificateRefs
